@@ -31,6 +31,7 @@ import torch
 from vt import stateheap as sh
 from vt.cond import Undecided
 from vt.runner import Ob, Refuted
+from vt.scenario import _raised_in_repo
 
 FUNCS = [
     "torchtree.inference.mcmc.mcmc:MCMC.state_dict",
@@ -187,11 +188,15 @@ def _payload(sent, torch_like=False):
             "t": sent.fresh_tensor(torch.zeros(2))}
 
 
-def _sched_payload(sent):
-    # layout of torch.optim.lr_scheduler.StepLR.state_dict()
-    return {"step_size": sent.fresh_int(), "gamma": sent.fresh_float(), "base_lrs": [sent.fresh_float()],
-            "last_epoch": sent.fresh_int(), "_step_count": sent.fresh_int(), "_last_lr": [sent.fresh_float()],
-            "_get_lr_called_within_step": False}
+def _sched_payload(sent, milestones=True):
+    # layout of torch.optim.lr_scheduler.StepLR.state_dict() plus the one int-keyed container torch schedulers keep
+    # (MultiStepLR.milestones, a Counter keyed by epoch)
+    out = {"step_size": sent.fresh_int(), "gamma": sent.fresh_float(), "base_lrs": [sent.fresh_float()],
+           "last_epoch": sent.fresh_int(), "_step_count": sent.fresh_int(), "_last_lr": [sent.fresh_float()],
+           "_get_lr_called_within_step": False}
+    if milestones:
+        out["milestones"] = collections.Counter({sent.fresh_int(): 1, sent.fresh_int(): 2})
+    return out
 
 
 def _quiet(fn, *a, **k):
@@ -267,11 +272,16 @@ def _recipes(quals):
     R.append(Recipe(GMRFOp, "", lambda mode, sent: GMRFOp("op", None, types.SimpleNamespace(field=_P("field", [0.1, 0.2, 0.3]), precision=_P("tau", [1.5])), 1.0, 0.24, 2.0), _warm_operator(False)))
     R.append(Recipe(ad.AdaptiveStepSize, "", [("", lambda mode, sent: ad.AdaptiveStepSize("ass", _integrator(), 0.8)),
                                               ("use_acceptance_rate", lambda mode, sent: ad.AdaptiveStepSize("ass", _integrator(), 0.8, use_acceptance_rate=True))], _warm_adaptor))
-    R.append(Recipe(ad.DualAveragingStepSize, "", lambda mode, sent: ad.DualAveragingStepSize("dass", _integrator(), mu=0.1), _warm_adaptor))
+    R.append(Recipe(ad.DualAveragingStepSize, "", [("", lambda mode, sent: ad.DualAveragingStepSize("dass", _integrator(), mu=0.1)),
+                                                   ("from_json defaults", lambda mode, sent: ad.DualAveragingStepSize.from_json(
+                                                       {"id": "dass", "integrator": "leapfrog"}, {"leapfrog": _integrator()})),
+                                                   ("from_json window", lambda mode, sent: ad.DualAveragingStepSize.from_json(
+                                                       {"id": "dass", "integrator": "leapfrog", "start": 2, "end": 8}, {"leapfrog": _integrator()}))],
+                    _warm_adaptor))
     for label, kw in (("", {}), ("variance_window", {"variance_window": 1}), ("swap_every", {"swap_every": 5})):
         R.append(Recipe(ad.MassMatrixAdaptor, label,
                         [(mk, (lambda mk, kw: lambda mode, sent: ad.MassMatrixAdaptor("mma", _params(), _mass(mk), True, update_frequency=4, **kw))(mk, kw))
-                         for mk in ("diag", "dense")] +
+                         for mk in ("diag", "dense", "diag32")] +
                         [("diag,float32-run", (lambda kw: lambda mode, sent: ad.MassMatrixAdaptor("mma", _params(), _mass("diag"), True, update_frequency=4, **kw))(kw), torch.float32)],
                         _warm_adaptor))
 
@@ -350,13 +360,17 @@ def _recipes(quals):
 
     R.append(Recipe(Optimizer, "", [("scheduler", mk_optimizer(True)), ("no-scheduler", mk_optimizer(False))], warm_optimizer, opt_specs))
 
-    def mk_scheduler(mode, sent):
-        if mode == "spec":
-            return Scheduler(sh.SpecStateful(None, _sched_payload(sent), with_id=False))
-        p = _params()[0]
-        p.requires_grad = True
-        o = torch.optim.SGD([p.tensor], lr=0.1)
-        return Scheduler(torch.optim.lr_scheduler.StepLR(o, step_size=2, gamma=0.5))
+    def mk_scheduler(which):
+        def make(mode, sent):
+            if mode == "spec":
+                return Scheduler(sh.SpecStateful(None, _sched_payload(sent, which == "MultiStepLR"), with_id=False))
+            p = _params()[0]
+            p.requires_grad = True
+            o = torch.optim.SGD([p.tensor], lr=0.1)
+            if which == "MultiStepLR":
+                return Scheduler(torch.optim.lr_scheduler.MultiStepLR(o, milestones=[2, 5, 9], gamma=0.5))
+            return Scheduler(torch.optim.lr_scheduler.StepLR(o, step_size=2, gamma=0.5))
+        return make
 
     def warm_scheduler(inst, n):
         if not isinstance(inst.scheduler, sh.SpecStateful):
@@ -364,7 +378,7 @@ def _recipes(quals):
                 inst.scheduler.optimizer.step()
                 inst.step()
 
-    R.append(Recipe(Scheduler, "", mk_scheduler, warm_scheduler, lambda inst: [("scheduler", inst.scheduler, True)]))
+    R.append(Recipe(Scheduler, "", [(w, mk_scheduler(w)) for w in ("StepLR", "MultiStepLR")], warm_scheduler, lambda inst: [("scheduler", inst.scheduler, True)]))
     return R
 
 
@@ -608,6 +622,115 @@ def ob_roundtrip(clsname, label, clause, seed, must_fail=False):
                 "variants": [v for v, _ in r.variants],
                 "statement": "forall state of %s (configurations %s, warm-up lengths %s): B.load_state_dict(J(A.state_dict())) %s" % (
                     r.name, [v for v, _ in r.variants], list(WARM), "does not raise" if clause == "restart_ok" else "makes frame(B) == frame(A)")}
+    return fn
+
+
+# ------------------------------------------------------------------------------------------
+# continuation: the restarted object, driven further, behaves as the uninterrupted one (bounded)
+# ------------------------------------------------------------------------------------------
+def _sync_collaborators(a, b, enc, dec, root=True, depth=0, seen=None):
+    """what the REST of a checkpoint restores for the object under test: parameter values (the parameter section) and
+    stateful collaborators (through their own state_dict/load_state_dict pair and the real JSON path)."""
+    seen = set() if seen is None else seen
+    if id(a) in seen or depth > 4 or a is None or b is None:
+        return
+    seen.add(id(a))
+    if isinstance(a, (list, tuple)) and isinstance(b, (list, tuple)):
+        for x, y in zip(a, b):
+            _sync_collaborators(x, y, enc, dec, False, depth + 1, seen)
+        return
+    if isinstance(a, dict) and isinstance(b, dict):
+        for k in a:
+            if k in b:
+                _sync_collaborators(a[k], b[k], enc, dec, False, depth + 1, seen)
+        return
+    if hasattr(a, "tensor") and hasattr(a, "fire_parameter_changed") and hasattr(b, "tensor"):
+        # in place: other collaborators (torch optimisers) hold the tensor object itself, as after a real restart where
+        # the parameters are rebuilt from the checkpoint before anything else refers to them
+        t = sh.json_roundtrip(a.tensor.detach().clone(), enc, dec)
+        if tuple(b.tensor.shape) == tuple(t.shape) and b.tensor.dtype == t.dtype:
+            with torch.no_grad():
+                b.tensor.copy_(t)
+            b.fire_parameter_changed()
+        else:
+            b.tensor = t
+        return
+    if not root and hasattr(a, "state_dict") and hasattr(b, "load_state_dict") and type(a).__module__.split(".")[0] != "torch":
+        b.load_state_dict(sh.json_roundtrip(a.state_dict(), enc, dec))
+        return
+    if sh.is_plain_object(a) and sh.is_plain_object(b):
+        for k, v in a.__dict__.items():
+            if k in b.__dict__:
+                _sync_collaborators(v, b.__dict__[k], enc, dec, False, depth + 1, seen)
+
+
+CONTINUE = ((3, 1), (3, 6), (12, 5), (0, 4))
+
+
+def _continue_once(recipe, variant, n_warm, k_more, seed):
+    import random
+    enc, dec = sh.json_path()
+    vlabel, make = recipe.variants[variant]
+    with _default_dtype(recipe.dtypes[variant]):
+        torch.manual_seed(1000 + seed)
+        random.seed(1000 + seed)
+        A = _quiet(make, "real", sh.Sentinels(seed))
+        B = _quiet(make, "real", sh.Sentinels(seed + 77))
+        if n_warm:
+            _quiet(recipe.warm, A, n_warm)
+        s2 = sh.json_roundtrip(A.state_dict(), enc, dec)
+        _sync_collaborators(A, B, enc, dec)
+        _quiet(B.load_state_dict, s2)
+        out = []
+        for obj in (A, B):
+            torch.manual_seed(2000 + seed)
+            random.seed(2000 + seed)
+            _quiet(recipe.warm, obj, k_more)
+        trans = _transient(recipe.cls)
+        da, db = dict(A.__dict__), dict(B.__dict__)
+        for f in sorted(set(da) | set(db)):
+            if f in trans or callable(da.get(f)) and not hasattr(da.get(f), "__dict__") or inspect.isfunction(da.get(f)):
+                continue
+            sh.same(da.get(f, sh.MISSING), db.get(f, sh.MISSING), f, out, tuple_is_list=True)
+        return vlabel, out
+
+
+def replay_continue(args):
+    r = _find_recipe(args["class"], args.get("config", ""))
+    vl, diffs = _continue_once(r, int(args["variant"]), int(args["warm"]), int(args["more"]), int(args.get("seed", 0)))
+    if diffs:
+        return False, "%s{%s}: restarted after %d rounds and driven %d more rounds with the same inputs, the restarted object differs from the uninterrupted one: %s" % (
+            r.name, vl, args["warm"], args["more"], diffs[:6])
+    return True, "%s{%s}: the restarted object follows the uninterrupted one" % (r.name, vl)
+
+
+def ob_continue(clsname, label, seed):
+    def fn():
+        r = _find_recipe(clsname, label)
+        if r.warm is None:
+            raise Undecided("%s: no driver for the real mutators" % r.name)
+        n = 0
+        for v in range(len(r.variants)):
+            for n_warm, k_more in CONTINUE:
+                try:
+                    vl, diffs = _continue_once(r, v, n_warm, k_more, seed)
+                except Exception as e:
+                    if _raised_in_repo(e):
+                        raise Refuted("%s{%s}: restart after %d rounds then %d more rounds raised %s: %s" % (r.name, r.variants[v][0], n_warm, k_more, type(e).__name__, e),
+                                      witness={"class": clsname, "config": label, "variant": v, "warm": n_warm, "more": k_more, "where": traceback.format_exc().splitlines()[-4:]},
+                                      replay={"kind": "custom", "contract": "C17", "func": "replay_continue",
+                                              "args": {"class": clsname, "config": label, "variant": v, "warm": n_warm, "more": k_more, "seed": seed}}, confirmed=True)
+                    raise
+                n += 1
+                if diffs:
+                    raise Refuted("%s{%s}: restarted after %d rounds and driven %d more rounds with the same inputs and random stream, the restarted object no longer equals the uninterrupted one: %s" % (
+                        r.name, vl, n_warm, k_more, "; ".join(diffs[:4])),
+                        witness={"class": clsname, "config": label, "variant": v, "warm": n_warm, "more": k_more, "diffs": diffs[:12]},
+                        replay={"kind": "custom", "contract": "C17", "func": "replay_continue",
+                                "args": {"class": clsname, "config": label, "variant": v, "warm": n_warm, "more": k_more, "seed": seed}}, confirmed=True)
+        return {"backend": "enum", "cases": n, "bounded": "warm-up/continuation lengths %s, the recipes' acceptance sequences" % (list(CONTINUE),),
+                "statement": "%s (configurations %s): the object restored from J(state_dict()) - collaborators restored through their own pairs - and the uninterrupted object, "
+                             "driven by the same further rounds of the real mutators, end with equal fields" % (r.name, [v for v, _ in r.variants])}
     return fn
 
 
@@ -1116,19 +1239,36 @@ def ob_codec_update(tier):
 # ==========================================================================================
 # C17.optim - torch.optim state through the real Optimizer / JSON path (bounded stand-in, tag B)
 # ==========================================================================================
+# name -> (torch.optim class, its options, dtype[, scheduler]); scheduler: (torch.optim.lr_scheduler class, JSON options as a
+# torchtree configuration would give them) - built through the real Scheduler.from_json; default StepLR
 _OPTIMS = {
     "SGD+StepLR": ("SGD", {"lr": 0.05}, torch.float64),
     "SGD-momentum+StepLR": ("SGD", {"lr": 0.05, "momentum": 0.9}, torch.float64),
     "Adam+StepLR": ("Adam", {"lr": 0.1}, torch.float64),
     "Adam+StepLR,float32": ("Adam", {"lr": 0.1}, torch.float32),   # run inside C17.optim[Adam+StepLR]
     "LBFGS": ("LBFGS", {"lr": 0.5, "max_iter": 2, "history_size": 3}, torch.float64),
+    "SGD+MultiStepLR": ("SGD", {"lr": 0.05}, torch.float64, ("MultiStepLR", {"milestones": [2, 4, 5], "gamma": 0.5})),
+    "Adam+ExponentialLR": ("Adam", {"lr": 0.1}, torch.float64, ("ExponentialLR", {"gamma": 0.8})),
+    "SGD+CosineAnnealingLR": ("SGD", {"lr": 0.05}, torch.float64, ("CosineAnnealingLR", {"T_max": 4})),
+    "Adam+LambdaLR": ("Adam", {"lr": 0.1}, torch.float64, ("LambdaLR", {"lr_lambda": "lambda epoch: 1.0 / (1.0 + epoch)"})),
+    "SGD+CyclicLR": ("SGD", {"lr": 0.05, "momentum": 0.5}, torch.float64, ("CyclicLR", {"base_lr": 0.01, "max_lr": 0.1, "step_size_up": 2})),
+    "AdamW+StepLR": ("AdamW", {"lr": 0.1, "amsgrad": True}, torch.float64),
+    "RMSprop+StepLR": ("RMSprop", {"lr": 0.05, "momentum": 0.5, "centered": True}, torch.float64),
+    "Adagrad+StepLR": ("Adagrad", {"lr": 0.2}, torch.float64),
+    "Adamax+StepLR": ("Adamax", {"lr": 0.1}, torch.float64),
+    "Adadelta+StepLR": ("Adadelta", {"lr": 1.0}, torch.float64),
+    "Rprop+StepLR": ("Rprop", {"lr": 0.05}, torch.float64),
+    "NAdam+StepLR": ("NAdam", {"lr": 0.1}, torch.float64),
+    "RAdam+StepLR": ("RAdam", {"lr": 0.1}, torch.float64),
+    "ASGD+StepLR": ("ASGD", {"lr": 0.05}, torch.float64),
 }
 
 
 def _optim_world_real(name):
     from torchtree.optim.lr_scheduler import Scheduler
     from torchtree.optim.optimizer import Optimizer
-    algo, opts, dtype = _OPTIMS[name]
+    algo, opts, dtype = _OPTIMS[name][:3]
+    sched_spec = _OPTIMS[name][3] if len(_OPTIMS[name]) > 3 else ("StepLR", {"step_size": 2, "gamma": 0.5})
     p = _P("theta", [1.0, -2.0, 3.0], dtype, nn=False)
     target = torch.tensor([0.5, 0.25, -1.0], dtype=dtype)
     scale = torch.tensor([1.0, 3.0, 0.5], dtype=dtype)
@@ -1138,7 +1278,10 @@ def _optim_world_real(name):
         return -(scale * d * d).sum() - 0.1 * (d ** 4).sum()
     p.requires_grad = True
     o = getattr(torch.optim, algo)([p.tensor], **opts)
-    sched = None if algo == "LBFGS" else Scheduler(torch.optim.lr_scheduler.StepLR(o, step_size=2, gamma=0.5))
+    sched = None
+    if algo != "LBFGS":
+        data = dict({"id": "scheduler", "type": "Scheduler", "scheduler": "torch.optim.lr_scheduler." + sched_spec[0]}, **sched_spec[1])
+        sched = Scheduler.from_json(data, {}, optimizer=o)
     return p, Optimizer("optimizer", [p], loss, o, 0, scheduler=sched, checkpoint=None)
 
 
@@ -1562,6 +1705,11 @@ def obligations(tier, seed):
         for clause in ("restart_ok", "state"):
             obs.append(Ob("C17.roundtrip.%s.%s" % (r.name, clause), "U", ob_roundtrip(r.cls.__name__, r.label, clause, seed),
                           clause="restarting never fails" if clause == "restart_ok" else "run state identical after restart", funcs=funcs, timeout=300))
+    for r in recipes:
+        # MCMC, Optimizer and Scheduler continue through their real run loops in C17.counter / C17.optim / C17.main
+        if r.warm is not None and r.cls.__name__ not in ("MCMC", "Optimizer", "Scheduler"):
+            obs.append(Ob("C17.continue.%s" % r.name, "B", ob_continue(r.cls.__name__, r.label, seed),
+                          clause="restarted object continues as the uninterrupted one (bounded)", funcs=funcs, timeout=300))
     have = {r.cls for r in recipes}
     for f in found:
         if not f["abstract"] and f["cls"] not in have:
